@@ -25,8 +25,10 @@ def project(ns):
     out = []
     for n in ns:
         k = n[0]
-        if k in ("t", "v", "r"):
+        if k in ("t", "v", "r", "m"):
             out.append(n)
+        elif k == "f":
+            out.append(("f", n[1], project(n[2]), [(e, project(b)) for (e, b) in n[3]]))
         elif k == "l":
             out.append(("l", n[1], n[2], n[3], n[4], project(n[5])))
         else:
